@@ -137,6 +137,7 @@ def run(tier, seed):
                 reqs.append('trace %d %s' % (sid, tb(data)))
                 meta.append(('raw', name, path, data))
         replies = lean_batch(reqs)
+        opt_calls, OPT_N = [], (120 if thorough else 40)
         for m, r in zip(meta, replies):
             if m[0] == 'def':
                 if not r.ok:
@@ -148,6 +149,8 @@ def run(tier, seed):
             if m[0] == 'raw':
                 _, name, path, data = m
                 real = tr.parse_trace_data(memoryview(data), path)
+                if len(opt_calls) < OPT_N and rng.random() < 0.2:
+                    opt_calls.append(('trace', data, [path], real))
                 model = r.lines()
                 ck.case(key=('raw', name, data) if len(data) > 52 else None, sample={'strings': name, 'data': data.hex()[:60]})
                 ck.count('raw/truncated')
@@ -162,6 +165,8 @@ def run(tier, seed):
             data = r.bytes()
             model, spec = r.lines(), r.lines()
             real = tr.parse_trace_data(memoryview(data), path)
+            if len(opt_calls) < OPT_N and rng.random() < 0.1:
+                opt_calls.append(('trace', data, [path], real))
             ck.case(key=(name, data) if len(real) > 7 else None,
                     sample={'strings': name, 'mode': mode, 'size': hdr[6], 'entries': [(e[3], len(e[5]), hex(e[2])) for e in es[:4]]})
             ck.count('mode=%s entries=%s' % (mode, '0' if not es else 'some'))
@@ -172,6 +177,7 @@ def run(tier, seed):
                 ck.fail('trace output contradicts the property', rp | {'first_difference': k, 'expected': spec[k:k + 2], 'actual': real[k:k + 2]}, 'trace_lines')
             if real != model:
                 ck.disagree('parse_trace_data differs from model', rp | {'impl': real[:8], 'model': model[:8]})
+        iod.check_optimised(ck, opt_calls, 'trace samples')
         # ---- a string file that is rewritten between two decodes in one process
         synth = [pth for nm, pth in loader_files if nm.startswith('synth') and os.path.exists(pth)]
         import struct as _st
